@@ -1,4 +1,1127 @@
+"""C08 group 2 — queue-fronted pipelines inside a real ``Simulation``.
+
+One execution = one configuration of a pipeline + one arrival pattern: a multiset
+of tagged requests, each with an arrival tick, a hop count (number of zero-delay
+forwarders it travels through: changes creation order on the arrival instant),
+a service time and, where the pipeline uses them, a priority / weight / owned
+random answer.  Everything is whole ticks of 1 s (exact nanoseconds).
+
+Oracle clauses (each tied to a phrase of the property statement):
+
+  in-service-exceeds-limit   "work in service never exceeds the concurrency limit"
+                             (after EVERY delivery, through control.on_event)
+  not-exactly-one-state      "each event offered ... is at every instant exactly one of
+                             rejected-and-counted, waiting, in service, completed exactly once"
+                             (at every clock advance = the settled state of the previous instant,
+                             and at quiescence): per tag where the harness can see the tag,
+                             and through the public counters
+  accepted-item-discarded    an item the queue had accepted is thrown away later (never
+                             served, never completed): "never lose ... work"
+  duplicated                 a tag is started / completed twice
+  stranded                   "no simulated time passes while an item waits and the worker
+                             has free capacity for it"
+  order                      "items leave a queue in the order its policy defines"
+  counters                   "rejected-and-counted" / counters add up at quiescence
+  livelock                   explicit horizon (a frozen clock is an outcome, never a hang)
+"""
+from __future__ import annotations
+
+import itertools
+import random as _random
+import time
+
+from mc.evidence import digest
+from mc.harness import Entity, Event, Fwd, Instant, Simulation, pmap, rotate, run_guarded
+
+from happysimulator.components.industrial.balking import BalkingQueue
+from happysimulator.components.industrial.batch_processor import BatchProcessor
+from happysimulator.components.industrial.conveyor import ConveyorBelt
+from happysimulator.components.industrial.gate_controller import GateController
+from happysimulator.components.industrial.pooled_cycle import PooledCycleResource
+from happysimulator.components.industrial.reneging import RenegingQueuedResource
+from happysimulator.components.industrial.shift_schedule import Shift, ShiftedServer, ShiftSchedule
+from happysimulator.components.queue import Queue
+from happysimulator.components.queue_driver import QueueDriver
+from happysimulator.components.queue_policy import FIFOQueue, LIFOQueue, PriorityQueue, QueuePolicy
+from happysimulator.components.queued_resource import QueuedResource
+from happysimulator.components.server.concurrency import (
+    DynamicConcurrency,
+    FixedConcurrency,
+    WeightedConcurrency,
+)
+from happysimulator.components.server.server import Server
+from happysimulator.core.event import ProcessContinuation
+from happysimulator.distributions.latency_distribution import LatencyDistribution
+from happysimulator.core.temporal import Duration
+
+SEC = 1_000_000_000
+INF = float("inf")
+HORIZON_T = 12  # keep-alive tick: lets daemon-driven schedules (shifts, gates) play out
+MAX_EVENTS = 4000
+STORM = 400
+
+
+def _tag(ev):
+    md = ev.context.get("metadata") if isinstance(ev.context, dict) else None
+    return md.get("tag") if md else None
+
+
+def key_prio(ev):
+    return ev.context["metadata"]["prio"]
+
+
+class Script:
+    ans = 0.999999
+
+
+def _scripted_random():
+    return Script.ans
+
+
+# ---------------------------------------------------------------------------
+# observation
+# ---------------------------------------------------------------------------
+class Obs:
+    """What the harness saw of one pipeline stage, per tag (times in ticks)."""
+
+    def __init__(self, name):
+        self.name = name
+        self.clock = None  # an entity of the simulation (public ``now``)
+        self.pushed = {}  # tag -> (t, accepted)
+        self.push_order = []  # tags in push order
+        self.waiting = []  # accepted, not popped, push order (reference queue)
+        self.popped = {}  # tag -> t
+        self.pop_order = []
+        self.started = {}  # tag -> [t]
+        self.finished = {}  # tag -> [t]
+        self.sunk = {}  # tag -> [t]
+        self.other = {}  # tag -> [t]   (reneged ...)
+        self.viol = []  # (clause, shape, description)
+        self.policy_kind = None
+        self.meta = {}  # tag -> metadata dict
+        self.arr_times = {}  # tag -> scheduled arrival tick
+        self.changes = set()  # ticks at which the harness changed capacity (knob / shift / gate)
+        self.upstream = None  # Obs of the previous stage (tandem): our push is its completion
+        self.pop_hook = None  # pipeline-specific check right after the queue released an item
+        self.ever_waited = []  # entity pipelines: tags that had to queue, in queue order
+        self.discard_reported = False
+        self.clauses_failed = set()
+        self.sunk_seq = []  # tags in the order their completions arrived downstream
+
+    def now(self):
+        return self.clock.now.nanoseconds // SEC
+
+    def v(self, clause, desc, t=None, shape=None):
+        """Record the FIRST failure of a clause in this execution (later ones are consequences)."""
+        if clause in self.clauses_failed:
+            return
+        self.clauses_failed.add(clause)
+        if shape is None:
+            shape = self.shape(clause, self.now() if t is None else t)
+        self.viol.append((clause, shape, desc))
+
+    # -- shape class of the instant a clause failed at (small, clause-specific vocabulary) --------
+    def shape(self, clause, t):
+        if any(c <= t for c in self.changes):
+            return "after-capacity-change"
+        if clause == "stranded":
+            return "idle-capacity"
+        times = [a for (a, _acc) in self.pushed.values()] or list(self.arr_times.values())
+        arr = sum(1 for a in times if a == t)
+        fin = any(t in ts for ts in self.finished.values()) or any(t in ts for ts in self.sunk.values())
+        if fin and arr:
+            return "arrival-on-completion-instant"
+        if arr >= 2:
+            return "same-instant-arrivals"
+        return "other"
+
+    # -- Tap callbacks -------------------------------------------------------
+    def on_push(self, ev, accepted):
+        tag = _tag(ev)
+        if tag is None:
+            return
+        t = self.now()
+        if self.upstream is not None:
+            self.upstream.on_sink(tag)
+        if tag in self.pushed:
+            self.v("duplicated", f"tag {tag} was offered to the queue twice (t={self.pushed[tag][0]} and t={t})")
+            return
+        self.pushed[tag] = (t, bool(accepted))
+        self.push_order.append(tag)
+        self.meta[tag] = ev.context["metadata"]
+        if accepted:
+            self.waiting.append(tag)
+
+    def on_pop(self, ev):
+        tag = _tag(ev)
+        if tag is None:
+            return
+        t = self.now()
+        if tag not in self.waiting:
+            self.v("duplicated", f"queue released tag {tag} at t={t} which it was not holding "
+                                 f"(waiting={self.waiting}, released before: {tag in self.popped})")
+            return
+        exp = self.expected_next()
+        if tag not in exp:
+            self.v("order", f"at t={t} the {self.policy_kind} queue released tag {tag}; its policy defines "
+                            f"{exp} (waiting in arrival order: {self.waiting})")
+        self.waiting.remove(tag)
+        self.popped[tag] = t
+        self.pop_order.append(tag)
+        if self.pop_hook is not None:
+            self.pop_hook(tag, t)
+
+    def expected_next(self):
+        w = self.waiting
+        if not w:
+            return []
+        k = self.policy_kind
+        if k == "FIFO":
+            return [w[0]]
+        if k == "LIFO":
+            return [w[-1]]
+        if k == "Priority":
+            best = min(w, key=lambda g: (self.meta[g]["prio"], w.index(g)))
+            return [best]
+        return list(w)
+
+    # -- worker / sink callbacks --------------------------------------------
+    def on_start(self, tag):
+        self.started.setdefault(tag, []).append(self.now())
+        if len(self.started[tag]) > 1:
+            self.v("duplicated", f"tag {tag} entered service twice (t={self.started[tag]})")
+
+    def on_finish(self, tag):
+        self.finished.setdefault(tag, []).append(self.now())
+
+    def on_sink(self, tag):
+        self.sunk.setdefault(tag, []).append(self.now())
+        self.sunk_seq.append(tag)
+        if len(self.sunk[tag]) > 1:
+            self.v("duplicated", f"tag {tag} completed twice (t={self.sunk[tag]})")
+
+    def on_other(self, tag):
+        self.other.setdefault(tag, []).append(self.now())
+
+    def trace(self):
+        tags = sorted(set(self.arr_times) | set(self.pushed))
+        return tuple((g, self.pushed.get(g), self.popped.get(g), tuple(self.started.get(g, ())),
+                      tuple(self.finished.get(g, ())), tuple(self.sunk.get(g, ())), tuple(self.other.get(g, ())))
+                     for g in tags)
+
+
+class Tap(QueuePolicy):
+    """Harness queue-policy wrapper (same extension point BalkingQueue uses): delegates
+    everything to the real policy and reports pushes / pops to the observer."""
+
+    def __init__(self, inner, obs, scripted=False):
+        self._inner = inner
+        self._obs = obs
+        self._scripted = scripted
+
+    @property
+    def capacity(self):
+        return self._inner.capacity
+
+    def push(self, item):
+        if self._scripted:
+            Script.ans = item.context["metadata"].get("r", 0.999999)
+        r = self._inner.push(item)
+        self._obs.on_push(item, r)
+        return r
+
+    def pop(self):
+        it = self._inner.pop()
+        if it is not None:
+            self._obs.on_pop(it)
+        return it
+
+    def peek(self):
+        return self._inner.peek()
+
+    def is_empty(self):
+        return self._inner.is_empty()
+
+    def __len__(self):
+        return len(self._inner)
+
+
+def _ensure_policy_used(resource, obs):
+    """The queue policy handed to the constructor must be the one the component's queue uses
+    ("items leave a queue in the order ITS policy defines").  If the component replaced it, report
+    that and wrap the policy actually in use so the remaining clauses can still be observed."""
+    actual = resource.queue.policy
+    if isinstance(actual, Tap):
+        return
+    obs.v("order", f"{type(resource).__name__} was constructed with policy=<the harness's policy object> but its "
+                   f"queue uses a different {type(actual).__name__}(capacity={actual.capacity}): the configured "
+                   f"ordering / capacity is ignored", shape="configured-policy-ignored")
+    resource.queue.policy = Tap(actual, obs)
+
+
+class Sink(Entity):
+    def __init__(self, name, cb):
+        super().__init__(name)
+        self.cb = cb
+
+    def handle_event(self, event):
+        tag = _tag(event)
+        if tag is not None:
+            self.cb(tag)
+        return None
+
+
+class Knob(Entity):
+    """Harness actor that changes a limit at a scheduled time through the public API."""
+
+    def __init__(self, name, fn, obs):
+        super().__init__(name)
+        self.fn = fn
+        self.obs = obs
+
+    def handle_event(self, event):
+        self.obs.changes.add(self.now.nanoseconds // SEC)
+        return self.fn(event.context["metadata"]["arg"])
+
+
+def make_policy(kind, cap):
+    c = INF if cap is None else cap
+    if kind == "FIFO":
+        return FIFOQueue(capacity=c)
+    if kind == "LIFO":
+        return LIFOQueue(capacity=c)
+    if kind == "Priority":
+        return PriorityQueue(capacity=c, key=key_prio)
+    raise AssertionError(kind)
+
+
+# ---------------------------------------------------------------------------
+# workers written by the harness (they see tags, starts and finishes)
+# ---------------------------------------------------------------------------
+class Worker(Entity):
+    """Target of a hand-wired Queue + QueueDriver."""
+
+    def __init__(self, name, obs, concurrency, downstream):
+        super().__init__(name)
+        self.obs, self.concurrency, self.downstream, self._in_flight = obs, concurrency, downstream, 0
+
+    def has_capacity(self):
+        return self._in_flight < self.concurrency
+
+    def handle_event(self, event):
+        md = event.context["metadata"]
+        self._in_flight += 1
+        self.obs.on_start(md["tag"])
+        try:
+            yield float(md["svc"])
+        finally:
+            self._in_flight -= 1
+        self.obs.on_finish(md["tag"])
+        return [Event(time=self.now, event_type="Done", target=self.downstream, context=event.context)]
+
+
+class DocServer(QueuedResource):
+    """QueuedResource subclass written exactly as /repo/CLAUDE.md documents (``MyServer``);
+    the only additions are the observer calls and the per-request service time."""
+
+    def __init__(self, name, downstream, concurrency=1, policy=None, obs=None):
+        super().__init__(name, policy=policy)
+        self.downstream, self.concurrency, self._in_flight = downstream, concurrency, 0
+        self.obs = obs
+
+    def has_capacity(self) -> bool:
+        return self._in_flight < self.concurrency
+
+    def handle_queued_event(self, event):
+        md = event.context["metadata"]
+        self._in_flight += 1
+        self.obs.on_start(md["tag"])
+        try:
+            yield float(md["svc"])
+        finally:
+            self._in_flight -= 1
+        self.obs.on_finish(md["tag"])
+        return [Event(time=self.now, event_type="Done", target=self.downstream, context=event.context)]
+
+
+class DocReneging(RenegingQueuedResource):
+    def __init__(self, name, downstream, reneged_target, patience, concurrency, policy, obs):
+        super().__init__(name, reneged_target=reneged_target, default_patience_s=patience, policy=policy)
+        self.downstream, self.concurrency, self._in_flight, self.obs = downstream, concurrency, 0, obs
+
+    def has_capacity(self) -> bool:
+        return self._in_flight < self.concurrency
+
+    def _handle_served_event(self, event):
+        md = event.context["metadata"]
+        self._in_flight += 1
+        self.obs.on_start(md["tag"])
+        try:
+            yield float(md["svc"])
+        finally:
+            self._in_flight -= 1
+        self.obs.on_finish(md["tag"])
+        return [Event(time=self.now, event_type="Done", target=self.downstream, context=event.context)]
+
+
+class SvcSeq(LatencyDistribution):
+    """Service time of the k-th request a Server starts (owned 'service-time sequence')."""
+
+    def __init__(self, seq):
+        super().__init__(0.0)
+        self.seq = list(seq)
+        self.k = 0
+
+    def get_latency(self, current_time):
+        s = self.seq[self.k] if self.k < len(self.seq) else self.seq[-1]
+        self.k += 1
+        return Duration.from_seconds(int(s))
+
+
+# ---------------------------------------------------------------------------
+# pipelines.  Each exposes the PUBLIC view of the component:
+#   snap() -> dict(waiting, in_service, rejected, accepted, completed, discarded, limit)  (None = not exposed)
+#   free_for(tag) -> bool   worker has free capacity for that waiting item
+# ---------------------------------------------------------------------------
+class Pipe:
+    tapped = True  # pushes / pops seen per tag
+    own_worker = True  # starts / finishes seen per tag
+    expect_all_done = True  # at quiescence every accepted item must have completed
+    stage_index, is_last, next_obs = 0, True, None
+    eval_t = 0  # the instant whose settled state check_boundary is judging
+
+    def __init__(self, cfg, obs, sink):
+        self.cfg, self.obs, self.sink = cfg, obs, sink
+        self.entities = []
+        self.extra_events = []
+        self.comp = None
+
+    def free_for(self, tag):
+        raise NotImplementedError
+
+    def limit_now(self):
+        return self.cfg.get("conc")
+
+    def in_service_units(self, tags):
+        return len(tags)
+
+
+class PipeQDW(Pipe):
+    label = "Queue+QueueDriver+worker"
+
+    def __init__(self, cfg, obs, sink):
+        super().__init__(cfg, obs, sink)
+        obs.policy_kind = cfg["policy"]
+        self.worker = Worker("worker", obs, cfg["conc"], sink)
+        self.driver = QueueDriver(name="driver", queue=None, target=self.worker)
+        self.queue = Queue(name="queue", egress=self.driver, policy=Tap(make_policy(cfg["policy"], cfg["cap"]), obs))
+        self.driver.queue = self.queue
+        self.entry = self.queue
+        self.entities = [self.queue, self.driver, self.worker]
+
+    def snap(self):
+        q = self.queue
+        return dict(waiting=q.depth, in_service=self.worker._in_flight, rejected=q.stats_dropped,
+                    accepted=q.stats_accepted, completed=None, discarded=0, limit=self.cfg["conc"])
+
+    def free_for(self, tag):
+        return self.worker.has_capacity()
+
+
+class PipeQR(Pipe):
+    label = "QueuedResource(documented pattern)"
+
+    def __init__(self, cfg, obs, sink):
+        super().__init__(cfg, obs, sink)
+        obs.policy_kind = cfg["policy"]
+        self.res = DocServer("res", sink, cfg["conc"], Tap(make_policy(cfg["policy"], cfg["cap"]), obs), obs)
+        self.entry = self.res
+        self.entities = [self.res]
+
+    def snap(self):
+        r = self.res
+        return dict(waiting=r.depth, in_service=r._in_flight, rejected=r.stats_dropped,
+                    accepted=r.stats_accepted, completed=None, discarded=0, limit=self.cfg["conc"])
+
+    def free_for(self, tag):
+        return self.res.has_capacity()
+
+
+class PipeBalking(PipeQR):
+    label = "QueuedResource+BalkingQueue"
+
+    def __init__(self, cfg, obs, sink):
+        Pipe.__init__(self, cfg, obs, sink)
+        obs.policy_kind = "FIFO"
+        self.balk = BalkingQueue(make_policy("FIFO", cfg["cap"]), balk_threshold=cfg["thr"], balk_probability=0.5)
+        self.res = DocServer("res", sink, cfg["conc"], Tap(self.balk, obs, scripted=True), obs)
+        self.entry = self.res
+        self.entities = [self.res]
+
+
+class PipeReneging(Pipe):
+    label = "RenegingQueuedResource"
+
+    def __init__(self, cfg, obs, sink):
+        super().__init__(cfg, obs, sink)
+        obs.policy_kind = "FIFO"
+        self.renege_sink = Sink("reneged", obs.on_other)
+        self.res = DocReneging("res", sink, self.renege_sink, float(cfg["patience"]), cfg["conc"],
+                               Tap(make_policy("FIFO", cfg["cap"]), obs), obs)
+        self.entry = self.res
+        self.entities = [self.res, self.renege_sink]
+        _ensure_policy_used(self.res, obs)
+
+    def snap(self):
+        r = self.res
+        return dict(waiting=r.depth, in_service=r._in_flight, rejected=r.stats_dropped, accepted=r.stats_accepted,
+                    completed=None, discarded=0, limit=self.cfg["conc"], reneged=r.reneged, served=r.served)
+
+    def free_for(self, tag):
+        return self.res.has_capacity()
+
+
+class PipeServer(Pipe):
+    own_worker = False
+
+    def __init__(self, cfg, obs, sink):
+        super().__init__(cfg, obs, sink)
+        obs.policy_kind = cfg["policy"]
+        m = cfg["model"]
+        conc = cfg["conc"]
+        self.knob = None
+        if m == "int":
+            model = conc
+        elif m == "fixed":
+            model = FixedConcurrency(conc)
+        elif m == "dynamic":
+            model = DynamicConcurrency(initial=conc, min_limit=1, max_limit=3)
+        elif m == "weighted":
+            model = WeightedConcurrency(conc)
+        else:
+            raise AssertionError(m)
+        self.label = f"Server[{m}]"
+        self.svc = SvcSeq(cfg["svc_seq"])
+        kw = {}
+        if cfg.get("native_cap"):
+            self.tapped = False
+            kw["queue_capacity"] = cfg["cap"]
+        else:
+            kw["queue_policy"] = Tap(make_policy(cfg["policy"], cfg["cap"]), obs)
+        self.server = Server("server", concurrency=model, service_time=self.svc, downstream=sink, **kw)
+        self.entry = self.server
+        self.entities = [self.server]
+        if m == "dynamic" and cfg.get("knob"):
+            self.knob = Knob("knob", lambda arg: self.server.concurrency_model.set_limit(arg), obs)
+            self.entities.append(self.knob)
+            for (t, lim) in cfg["knob"]:
+                self.extra_events.append(Event(time=Instant.from_seconds(t), event_type="SetLimit", target=self.knob,
+                                               context={"metadata": {"arg": lim}}))
+
+    def snap(self):
+        s = self.server
+        st = s.stats
+        return dict(waiting=s.depth, in_service=s.active_requests, rejected=s.stats_dropped,
+                    accepted=s.stats_accepted, completed=st.requests_completed, discarded=st.requests_rejected,
+                    limit=s.concurrency)
+
+    def limit_now(self):
+        return self.server.concurrency
+
+    def free_for(self, tag):
+        w = self.obs.meta[tag].get("weight", 1) if tag is not None else 1
+        return self.server.has_capacity(w) if self.cfg["model"] == "weighted" else self.server.has_capacity()
+
+    def in_service_units(self, tags):
+        if self.cfg["model"] == "weighted":
+            return sum(self.obs.meta[g].get("weight", 1) for g in tags)
+        return len(tags)
+
+
+class PipeShifted(Pipe):
+    label = "ShiftedServer"
+    own_worker = False
+
+    def __init__(self, cfg, obs, sink):
+        super().__init__(cfg, obs, sink)
+        obs.policy_kind = "FIFO"
+        caps = cfg["caps"]
+        self.schedule = ShiftSchedule([Shift(float(i), float(i + 1), c) for i, c in enumerate(caps)],
+                                      default_capacity=cfg["default"])
+        self.server = ShiftedServer("shifted", self.schedule, service_time=float(cfg["svc"]), downstream=sink,
+                                    policy=Tap(make_policy("FIFO", cfg["cap"]), obs))
+        self.entry = self.server
+        self.entities = [self.server]
+        _ensure_policy_used(self.server, obs)
+        prev = caps[0]
+        for i, c in enumerate(list(caps[1:]) + [cfg["default"]], start=1):
+            if c != prev:
+                obs.changes.add(i)
+            prev = c
+        self.expect_all_done = cfg["default"] > 0
+
+        def started(tag, t):
+            ins = len(obs.popped) - self.server.processed
+            if ins > self.cap_at(t):
+                obs.v("in-service-exceeds-limit",
+                      f"at t={t} tag {tag} is released for service: {ins} items in service, the schedule allows "
+                      f"{self.cap_at(t)} (current_capacity={self.server.current_capacity})", t)
+
+        obs.pop_hook = started
+
+    def cap_at(self, t):
+        return self.schedule.capacity_at(float(t))
+
+    def snap(self):
+        s = self.server
+        return dict(waiting=s.depth, in_service=None, rejected=s.stats_dropped, accepted=s.stats_accepted,
+                    completed=s.processed, discarded=0, limit=None)
+
+    def limit_now(self):
+        return self.cap_at(self.eval_t)
+
+    def free_for(self, tag):
+        # the schedule is the documented capacity (evaluated at the instant whose settled state is being
+        # judged); in service = released by the queue and not yet processed
+        return (len(self.obs.popped) - self.server.processed) < self.cap_at(self.eval_t)
+
+
+# -- entity pipelines with an internal buffer (no QueuePolicy seam): observed through
+# -- control.on_event deliveries to the component + public counter deltas
+class EntityPipe(Pipe):
+    tapped = False
+    own_worker = False
+
+    def counters(self):
+        raise NotImplementedError
+
+
+class PipePooled(EntityPipe):
+    label = "PooledCycleResource"
+
+    def __init__(self, cfg, obs, sink):
+        super().__init__(cfg, obs, sink)
+        self.comp = PooledCycleResource("pool", pool_size=cfg["conc"], cycle_time=float(cfg["svc"]), downstream=sink,
+                                        queue_capacity=cfg["cap"] or 0)
+        self.entry = self.comp
+        self.entities = [self.comp]
+
+    def snap(self):
+        c = self.comp
+        return dict(waiting=c.queued, in_service=c.active, rejected=c.rejected, accepted=None,
+                    completed=c.completed, discarded=0, limit=c.pool_size)
+
+    def free_for(self, tag):
+        return self.comp.available > 0
+
+
+class PipeConveyor(EntityPipe):
+    label = "ConveyorBelt"
+
+    def __init__(self, cfg, obs, sink):
+        super().__init__(cfg, obs, sink)
+        self.comp = ConveyorBelt("belt", sink, transit_time=float(cfg["svc"]), capacity=cfg["conc"] or 0)
+        self.entry = self.comp
+        self.entities = [self.comp]
+
+    def snap(self):
+        c = self.comp
+        return dict(waiting=0, in_service=c.items_in_transit, rejected=c.items_rejected, accepted=None,
+                    completed=c.items_transported, discarded=0, limit=(self.cfg["conc"] or None))
+
+    def free_for(self, tag):
+        return self.comp.has_capacity()
+
+
+class PipeGate(EntityPipe):
+    label = "GateController"
+    expect_all_done = False  # items may legitimately still wait behind a closed gate
+
+    def __init__(self, cfg, obs, sink):
+        super().__init__(cfg, obs, sink)
+        self.comp = GateController("gate", sink, schedule=[(float(a), float(b)) for a, b in cfg["schedule"]],
+                                   initially_open=cfg["open0"], queue_capacity=cfg["cap"] or 0)
+        self.entry = self.comp
+        self.entities = [self.comp]
+        self.extra_events = self.comp.start_events()
+        for a, b in cfg["schedule"]:
+            obs.changes.add(a)
+            obs.changes.add(b)
+
+    def snap(self):
+        c = self.comp
+        st = c.stats
+        return dict(waiting=c.queue_depth, in_service=0, rejected=st.rejected, accepted=None,
+                    completed=st.passed_through, discarded=0, limit=None)
+
+    def free_for(self, tag):
+        return self.comp.is_open
+
+
+class PipeBatch(EntityPipe):
+    label = "BatchProcessor"
+    expect_all_done = False
+
+    def __init__(self, cfg, obs, sink):
+        super().__init__(cfg, obs, sink)
+        self.comp = BatchProcessor("batch", sink, batch_size=cfg["batch"], process_time=float(cfg["svc"]),
+                                   timeout_s=float(cfg["timeout"]))
+        self.entry = self.comp
+        self.entities = [self.comp]
+
+    def snap(self):
+        c = self.comp
+        return dict(waiting=c.buffer_depth, in_service=None, rejected=0, accepted=None,
+                    completed=c.items_processed, discarded=0, limit=None)
+
+    def free_for(self, tag):
+        # a buffered item is only "held back although it could go" when a full batch is waiting
+        return self.comp.buffer_depth >= self.cfg["batch"]
+
+
+KINDS = {
+    "QDW": PipeQDW, "QR": PipeQR, "Balking": PipeBalking, "Reneging": PipeReneging, "Server": PipeServer,
+    "Shifted": PipeShifted, "Pooled": PipePooled, "Conveyor": PipeConveyor, "Gate": PipeGate, "Batch": PipeBatch,
+}
+
+
+# ---------------------------------------------------------------------------
+# one execution
+# ---------------------------------------------------------------------------
+class Exec:
+    def __init__(self, kind, cfg, arrivals):
+        self.kind, self.cfg, self.arrivals = kind, cfg, arrivals
+        self.obs = []
+        self.pipes = []
+        self.viol = []
+        self.events = 0
+        self.outcome = None
+
+
+def build(kind, cfg, arrivals):
+    """arrivals: tuple of (t, hops, svc, prio, weight, r) per request; tag = index."""
+    stages = cfg.get("stages", 1)
+    cfg = dict(cfg, svc_seq=[a[2] for a in arrivals])
+    sink_obs = Obs(f"s{stages - 1}")
+    sink = Sink("sink", sink_obs.on_sink)
+    ents = [sink]
+    pipes, obs_list = [], []
+    downstream = sink
+    for si in reversed(range(stages)):
+        obs = sink_obs if si == stages - 1 else Obs(f"s{si}")
+        obs.clock = sink
+        p = KINDS[kind](cfg, obs, downstream)
+        p.stage_index, p.is_last = si, (si == stages - 1)
+        if pipes:
+            pipes[0].obs.upstream = obs  # the next stage's push is this stage's completion
+            p.next_obs = pipes[0].obs
+        else:
+            p.next_obs = None
+        pipes.insert(0, p)
+        obs_list.insert(0, obs)
+        ents += p.entities
+        downstream = p.entry
+    first = pipes[0]
+    chains = {0: first.entry}
+    for h in sorted({a[1] for a in arrivals} - {0}):
+        tgt = first.entry
+        for j in range(h):
+            f = Fwd(f"fwd{h}.{j}", tgt)
+            ents.append(f)
+            tgt = f
+        chains[h] = tgt
+    keep = Sink("keepalive", lambda tag: None)
+    ents.append(keep)
+    sim = Simulation(entities=ents)
+    events = []
+    for tag, (t, hops, svc, prio, weight, r) in enumerate(arrivals):
+        md = {"tag": tag, "svc": svc, "prio": prio, "weight": weight, "r": r}
+        events.append(Event(time=Instant.from_seconds(int(t)), event_type="Req", target=chains[hops],
+                            context={"metadata": md}))
+        first.obs.arr_times[tag] = t
+        for o in obs_list:
+            o.meta.setdefault(tag, md)
+    events.append(Event(time=Instant.from_seconds(HORIZON_T), event_type="KeepAlive", target=keep))
+    for p in pipes:
+        events += p.extra_events
+    sim.schedule(events)
+    return sim, pipes, obs_list
+
+
+def execute(kind, cfg, arrivals, verbose=False):
+    saved = _random.random
+    _random.random = _scripted_random
+    try:
+        return _execute(kind, cfg, arrivals, verbose)
+    finally:
+        _random.random = saved
+
+
+def _execute(kind, cfg, arrivals, verbose):
+    ex = Exec(kind, cfg, arrivals)
+    sim, pipes, obs_list = build(kind, cfg, arrivals)
+    ex.obs, ex.pipes = obs_list, pipes
+    ctl = sim.control
+    state = {"prev": {id(p): p.snap() for p in pipes}, "t": 0}
+    ent_seen = {}
+
+    def per_delivery(ev):
+        if type(ev.target) is Fwd:
+            return
+        for p in pipes:
+            s = p.snap()
+            o = p.obs
+            prev = state["prev"][id(p)]
+            ins, lim = s["in_service"], s["limit"]
+            # a start (in-service count went up) must stay within the limit in force
+            if ins is not None and lim is not None and ins > lim and ins > (prev["in_service"] or 0):
+                o.v("in-service-exceeds-limit", f"at t={o.now()} {ins} items are in service, the limit is {lim}")
+            if isinstance(p, EntityPipe) and ev.target is p.comp and not isinstance(ev, ProcessContinuation):
+                tag = _tag(ev)
+                if tag is not None:
+                    _classify_entity_delivery(p, o, tag, prev, s, ent_seen)
+            state["prev"][id(p)] = s
+        if verbose:
+            tname = getattr(ev.target, "name", "?")
+            cont = " (process resumes)" if isinstance(ev, ProcessContinuation) else ""
+            print(f"    t={ev.time.nanoseconds // SEC} deliver {ev.event_type:<14} -> {tname:<12} tag={_tag(ev)}{cont}  "
+                  + " | ".join(f"{p.obs.name}: " + _fmt(p.snap()) for p in pipes))
+
+    def boundary(new_time):
+        t_prev = state["t"]
+        for p in pipes:
+            check_boundary(p, t_prev, final=False)
+        state["t"] = new_time.nanoseconds // SEC
+        if verbose:
+            print(f"  -- clock advances {t_prev} -> {state['t']}")
+
+    ctl.on_time_advance(boundary)
+    res = run_guarded(sim, max_events=MAX_EVENTS, storm=STORM, on_event=per_delivery)
+    ex.events = res["events"]
+    ex.outcome = res["outcome"]
+    if res["outcome"] != "done":
+        pipes[0].obs.viol.append(("livelock", "frozen-clock" if res["outcome"] == "storm" else "horizon",
+                                  f"run did not finish: {res['outcome']} after {res['events']} deliveries "
+                                  f"(last t={res['last_ns']} ns)"))
+    else:
+        for p in pipes:
+            check_boundary(p, state["t"], final=True)
+    seen = set()
+    for p in pipes:
+        for (clause, shape, desc) in p.obs.viol:
+            fp = f"{p.label}/{clause}/{shape}"
+            if fp not in seen:  # first witness per fingerprint and execution
+                seen.add(fp)
+                ex.viol.append((fp, desc))
+    return ex
+
+
+def _fmt(s):
+    return " ".join(f"{k}={v}" for k, v in s.items() if v is not None)
+
+
+def _classify_entity_delivery(p, o, tag, prev, s, seen):
+    """A tagged event was delivered to an entity pipeline: decide from public counter deltas what
+    the component did with it (started / queued / rejected / passed on)."""
+    n = seen.get((id(p), tag), 0)
+    seen[(id(p), tag)] = n + 1
+    t = o.now()
+    d_rej = (s["rejected"] or 0) - (prev["rejected"] or 0)
+    d_wait = (s["waiting"] or 0) - (prev["waiting"] or 0)
+    if n == 0:
+        o.pushed[tag] = (t, d_rej == 0)
+        o.push_order.append(tag)
+        if d_rej == 0 and d_wait > 0:
+            o.waiting.append(tag)
+            o.ever_waited.append(tag)
+        elif d_rej == 0:
+            o.popped[tag] = t  # straight into service / passed on
+    else:
+        # PooledCycleResource hands a dequeued item back to itself as a fresh event
+        if tag in o.waiting:
+            o.waiting.remove(tag)
+        if d_rej > 0:
+            o.v("accepted-item-discarded",
+                f"tag {tag} was accepted at t={o.pushed[tag][0]} and queued; when a unit became free at t={t} it "
+                f"was handed back to the component and rejected (rejected counter +{d_rej})",
+                shape="handed-back-item-rejected")
+            o.other.setdefault(tag, []).append(t)
+        elif d_wait > 0:
+            o.waiting.append(tag)  # sent back to the tail of the queue
+        else:
+            o.popped[tag] = t
+
+
+def check_boundary(p, t_prev, final):
+    """Settled state of instant ``t_prev``: called when the clock is about to advance, and at the end."""
+    o = p.obs
+    p.eval_t = t_prev
+    s = p.snap()
+    when = f"end of t={t_prev}" + (" (quiescence)" if final else "")
+    tail = "nothing is scheduled any more" if final else "simulated time passes"
+    if p.stage_index == 0:
+        offered = [g for g, a in o.arr_times.items() if a <= t_prev]
+        for g in offered:
+            if g not in o.pushed and (p.tapped or isinstance(p, EntityPipe)):
+                o.v("not-exactly-one-state", f"{when}: tag {g} (arrival t={o.arr_times[g]}) never reached the "
+                                             f"component", t_prev)
+    else:
+        offered = list(o.pushed)
+    rejected = [g for g, (_t, acc) in o.pushed.items() if not acc]
+    accepted = [g for g, (_t, acc) in o.pushed.items() if acc]
+    waiting = list(o.waiting)
+    n_sunk = len(o.sunk)
+
+    if p.tapped:
+        if p.own_worker:
+            in_service = [g for g in o.started if len(o.finished.get(g, ())) < len(o.started[g])]
+        else:
+            in_service = [g for g in o.popped if g not in o.sunk]
+        for g in accepted:
+            if not p.own_worker:
+                break
+            states = []
+            if g in waiting:
+                states.append("waiting")
+            if g in in_service:
+                states.append("in service")
+            if g in o.finished:
+                states.append("completed")
+            if g in o.other:
+                states.append("reneged")
+            if len(states) == 1:
+                if g in o.finished and g not in o.sunk:
+                    o.v("not-exactly-one-state", f"{when}: tag {g} finished service at t={o.finished[g]} but its "
+                                                 f"completion never arrived downstream", t_prev)
+                continue
+            if not states:
+                o.v("not-exactly-one-state", f"{when}: tag {g} left the queue at t={o.popped.get(g)} but is "
+                                             f"neither in service nor completed", t_prev)
+            else:
+                o.v("not-exactly-one-state", f"{when}: tag {g} is in states {states}", t_prev)
+        # public counters against the per-tag view ("rejected-and-counted", "waiting")
+        if s["waiting"] != len(waiting):
+            o.v("counters", f"{when}: depth={s['waiting']} but {len(waiting)} accepted items have not left the "
+                            f"queue ({waiting})", t_prev)
+        if s["rejected"] != len(rejected):
+            o.v("counters", f"{when}: {len(rejected)} offers were rejected ({rejected}) but the drop counter "
+                            f"says {s['rejected']}", t_prev)
+        if s["accepted"] is not None and s["accepted"] != len(accepted):
+            o.v("counters", f"{when}: {len(accepted)} offers were accepted but stats_accepted={s['accepted']}", t_prev)
+        if "reneged" in s and s["reneged"] != len(o.other):
+            o.v("counters", f"{when}: reneged counter={s['reneged']} but {len(o.other)} items reached the "
+                            f"reneged target", t_prev)
+        if s["discarded"]:
+            if not o.discard_reported:
+                o.discard_reported = True
+                lost = [g for g in o.popped if g not in o.sunk]
+                heavy = [g for g in lost if o.meta[g].get("weight", 1) > 1] if p.cfg.get("model") == "weighted" else []
+                o.v("accepted-item-discarded",
+                    f"{when}: the server counts {s['discarded']} request(s) rejected AFTER its queue had accepted "
+                    f"and released them (released and not completed: {lost}; in service: {s['in_service']}"
+                    + (f"; weights {[o.meta[g].get('weight', 1) for g in lost]}" if heavy else "") + ")", t_prev,
+                    shape="item-heavier-than-one-unit" if heavy else None)
+        elif not p.own_worker and s["in_service"] is not None:
+            units = p.in_service_units(in_service)
+            if units != s["in_service"]:
+                o.v("not-exactly-one-state",
+                    f"{when}: {in_service} left the queue and have not completed ({units} capacity units) but "
+                    f"the server reports {s['in_service']} in service", t_prev)
+        if waiting:
+            head = o.expected_next()
+            if head and p.free_for(head[0]):
+                o.v("stranded", f"{when}: {waiting} wait(s) although the worker has free capacity for "
+                                f"{head[0]} (in service: {in_service}, limit {p.limit_now()}); {tail}", t_prev)
+            elif final and p.expect_all_done:
+                o.v("stranded", f"{when}: {waiting} still wait(s) and {tail}", t_prev)
+        if final and s["completed"] is not None and s["completed"] != n_sunk:
+            o.v("counters", f"{when}: completed counter={s['completed']} but {n_sunk} completions arrived "
+                            f"downstream", t_prev)
+        if not p.is_last and p.own_worker:
+            for g in o.finished:
+                if g not in p.next_obs.pushed:
+                    o.v("not-exactly-one-state", f"{when}: tag {g} finished stage {p.stage_index} at "
+                                                 f"t={o.finished[g]} but never reached the next stage", t_prev)
+        return
+
+    # ---- count view (entity pipelines, server with its own queue_capacity) ----
+    n_off = len(offered)
+    if s["in_service"] is not None:
+        tot = (s["rejected"] or 0) + (s["waiting"] or 0) + s["in_service"] + n_sunk + (s["discarded"] or 0)
+        if tot != n_off:
+            o.v("not-exactly-one-state",
+                f"{when}: {n_off} requests offered, but rejected={s['rejected']} + waiting={s['waiting']} + "
+                f"in service={s['in_service']} + completed downstream={n_sunk} = {tot}", t_prev)
+    if s["discarded"] and not o.discard_reported:
+        o.discard_reported = True
+        o.v("accepted-item-discarded", f"{when}: the server counts {s['discarded']} request(s) rejected AFTER its "
+                                       f"queue had accepted them", t_prev)
+    if isinstance(p, PipeBatch):
+        if final:
+            if s["completed"] != n_sunk:
+                o.v("counters", f"{when}: items_processed={s['completed']} but {n_sunk} items arrived downstream",
+                    t_prev)
+            if s["waiting"] + s["completed"] != n_off:
+                o.v("not-exactly-one-state", f"{when}: {n_off} offered but buffered={s['waiting']} + "
+                                             f"processed={s['completed']}", t_prev)
+            if p.cfg["timeout"] > 0 and s["waiting"]:
+                o.v("stranded", f"{when}: {s['waiting']} item(s) still buffered although the batch timeout "
+                                f"({p.cfg['timeout']} s) elapsed long ago", t_prev)
+    elif s["completed"] is not None and s["completed"] != n_sunk:
+        o.v("counters", f"{when}: completed counter={s['completed']} but {n_sunk} completions arrived downstream",
+            t_prev)
+    if (s["waiting"] or 0) > 0:
+        if p.free_for(None):
+            o.v("stranded", f"{when}: {s['waiting']} item(s) wait although the worker has free capacity "
+                            f"(in service {s['in_service']}, limit {s['limit']}); {tail}", t_prev)
+        elif final and p.expect_all_done:
+            o.v("stranded", f"{when}: {s['waiting']} item(s) still wait and {tail}", t_prev)
+    if final and isinstance(p, EntityPipe) and not isinstance(p, PipeBatch):
+        # one constant service time: items that had to queue complete in queue order (FIFO buffer)
+        order = list(o.ever_waited)
+        pos = {g: i for i, g in enumerate(o.sunk_seq)}
+        bad = [(a, b) for i, a in enumerate(order) for b in order[i + 1:]
+               if b in pos and (a not in pos or pos[b] < pos[a]) and a not in o.other]
+        if bad:
+            a, b = bad[0]
+            o.v("order", f"tag {b} queued behind tag {a} yet completed first (completions arrived downstream in "
+                         f"the order {o.sunk_seq}, at t={[o.sunk[g][0] for g in o.sunk_seq]})", o.sunk[b][0],
+                shape="queued-item-overtaken")
+
+
+# ---------------------------------------------------------------------------
+# enumeration
+# ---------------------------------------------------------------------------
+def arrival_multisets(n, times, hops):
+    slots = [(t, h) for t in times for h in hops]
+    return list(itertools.combinations_with_replacement(slots, n))
+
+
+def patterns(n_max, times, hops, svcs, prios=(0,), weights=(1,), rs=(0.999999,), n_min=1):
+    """All arrival patterns with n_min..n_max requests: multiset of (time, hops) slots x every assignment of
+    per-request attributes.  Tags are numbered in slot order; identical slots are symmetric because all
+    attribute assignments are enumerated."""
+    attrs = list(itertools.product(svcs, prios, weights, rs))
+    for n in range(n_min, n_max + 1):
+        for ms in arrival_multisets(n, times, hops):
+            for at in itertools.product(attrs, repeat=n):
+                yield tuple((t, h) + a for (t, h), a in zip(ms, at))
+
+
+def _nontrivial(ex):
+    for o in ex.obs:
+        arr = [t for (t, _a) in o.pushed.values()] or list(o.arr_times.values())
+        fin = [v[0] for v in (o.finished or o.sunk).values()]
+        ts = arr + fin
+        if len(ts) != len(set(ts)):
+            return True
+        if any(not a for (_t, a) in o.pushed.values()):
+            return True
+        if any(o.popped.get(g, t) != t for g, (t, _a) in o.pushed.items()):
+            return True
+    return False
+
+
+def work(job):
+    kind, cfg, pats = job
+    st = {"exec": 0, "trans": 0, "nontriv": 0, "outcomes": set(), "viol": {}, "counts": {}, "samples": []}
+    for arr in pats:
+        ex = execute(kind, cfg, arr)
+        st["exec"] += 1
+        st["trans"] += ex.events
+        st["outcomes"].add(digest(tuple(o.trace() for o in ex.obs)))
+        if _nontrivial(ex):
+            st["nontriv"] += 1
+        for fp, desc in ex.viol:
+            st["counts"][fp] = st["counts"].get(fp, 0) + 1
+            cur = st["viol"].get(fp)
+            if cur is None or len(arr) < len(cur[1]["arrivals"]):
+                st["viol"][fp] = (desc, {"driver": "pipe", "kind": kind, "cfg": cfg,
+                                         "arrivals": [list(a) for a in arr]})
+        if not st["samples"] and st["exec"] % 211 == 5:
+            st["samples"].append({"kind": kind, "cfg": cfg, "arrivals": [list(a) for a in arr],
+                                  "trace": [list(map(str, o.trace())) for o in ex.obs]})
+    return kind, cfg, st
+
+
+def chunked(seq, n):
+    seq = list(seq)
+    k = max(1, (len(seq) + n - 1) // n)
+    return [seq[i:i + k] for i in range(0, len(seq), k)]
+
+
 def run_pipes(run, tier, seed, only):
-    return
+    from props.c08_space import families
+    t_all = time.time()
+    jobs = []
+    fam_of = {}
+    for fam in families(tier):
+        name = f"pipe-{fam['name']}"
+        if only and name not in only and "pipe" not in only:
+            continue
+        d = run.driver(name, fam["bounds"])
+        pats = list(fam["patterns"])
+        for cfg in fam["cfgs"]:
+            for ch in chunked(pats, fam.get("chunks", 4)):
+                jobs.append((fam["kind"], cfg, ch))
+                fam_of[len(jobs) - 1] = name
+    if not jobs:
+        return
+    order = rotate(list(range(len(jobs))), seed)
+    results = pmap(_work_indexed, [(i, jobs[i]) for i in order])
+    agg = {}
+    for i, (kind, cfg, st) in results:
+        name = fam_of[i]
+        a = agg.setdefault(name, {"exec": 0, "trans": 0, "nontriv": 0, "outcomes": set(), "samples": [],
+                                  "counts": {}, "cpu": 0.0})
+        a["exec"] += st["exec"]
+        a["trans"] += st["trans"]
+        a["nontriv"] += st["nontriv"]
+        a["outcomes"] |= st["outcomes"]
+        a["samples"] += st["samples"]
+        a["cpu"] += st.get("cpu", 0.0)
+        for fp, n in st["counts"].items():
+            a["counts"][fp] = a["counts"].get(fp, 0) + n
+        for fp, (desc, rep) in st["viol"].items():
+            cur = run.violations.get(fp)
+            if cur is not None and len(rep["arrivals"]) < len(cur[1].get("arrivals", rep["arrivals"])):
+                run.violations[fp] = (desc, rep)
+            run.violation(fp, desc, rep)
+    wall = time.time() - t_all
+    tot = sum(a["exec"] for a in agg.values()) or 1
+    for name, a in agg.items():
+        d = run.driver(name)
+        d.executions = a["exec"]
+        d.transitions = a["trans"]
+        d.nontrivial = a["nontriv"]
+        d.outcomes = len(a["outcomes"])
+        d.states = len(a["outcomes"])
+        d.samples = a["samples"][:2]
+        d.extra["violating_executions_by_fingerprint"] = dict(sorted(a["counts"].items()))
+        d.extra["cpu_s"] = round(a["cpu"], 2)
+        d.wall_s = wall * a["exec"] / tot
+
+
+def _work_indexed(x):
+    i, job = x
+    t0 = time.process_time()
+    kind, cfg, st = work(job)
+    st["cpu"] = time.process_time() - t0
+    return i, (kind, cfg, st)
+
+
 def replay(rep):
-    return []
+    kind, cfg = rep["kind"], rep["cfg"]
+    arr = tuple(tuple(a) for a in rep["arrivals"])
+    print(f"pipeline {kind} cfg={cfg}")
+    for tag, a in enumerate(arr):
+        print(f"  request tag={tag}: arrives t={a[0]} through {a[1]} forwarder(s), service={a[2]} prio={a[3]} "
+              f"weight={a[4]} random={a[5]}")
+    ex = execute(kind, cfg, arr, verbose=True)
+    for o in ex.obs:
+        print(f"  stage {o.name}: per tag (tag, (offered t, accepted), dequeued t, started, finished, completed, other)")
+        for row in o.trace():
+            print(f"    {row}")
+    for fp, d in ex.viol:
+        print(f"  !! {fp}: {d}")
+    return ex.viol
